@@ -60,6 +60,12 @@ impl Dev {
             m.clock(4);
         }
     }
+    /// bus only: the guest writes IF between an event and the next catch-up (direct: nothing happens)
+    fn write_if(&mut self, v: u8) {
+        if let Dev::Bus(m) = self {
+            m.write(0xff0f, v);
+        }
+    }
     /// collect the latched request (bus: one machine cycle of device time moves it into IF bit 4, which is then cleared)
     fn collect(&mut self) -> bool {
         match self {
@@ -119,6 +125,10 @@ impl Scenario for JoypadEvents {
             if rng.chance(1, 6) {
                 case.push("a", &[]);
             }
+            if rng.chance(1, 8) {
+                // the guest writes IF before the devices have caught up (a latched request must survive that)
+                case.push("w", &[rng.pick(&[0x00i64, 0x0f, 0x10, 0x1f, 0xe0])]);
+            }
             if rng.chance(1, collect_rate) {
                 case.push("c", &[]);
                 if rng.chance(1, 8) {
@@ -166,6 +176,16 @@ impl Scenario for JoypadEvents {
                     if bus && model.collect() {
                         if_bit = true;
                         ctx.cov.hit("probe.request_left_unacknowledged_in_if");
+                    }
+                    continue;
+                }
+                "w" => {
+                    if bus {
+                        let v = op.arg(0) as u8;
+                        dev.write_if(v);
+                        // what the guest wrote is what IF bit 4 holds now; the joypad's own latch is not touched by it
+                        if_bit = v & 0x10 != 0;
+                        ctx.cov.hit("probe.if_written_before_catch_up");
                     }
                     continue;
                 }
